@@ -355,7 +355,7 @@ pub async fn run_client(spec: ClientSpec) {
                         _ = ev_fut => { rec.outcome = StepOutcome::Done; break; }
                     }
                 }
-                rec.recv = conn.raw[start_raw..].to_vec();
+                rec.recv = rec.msgs.iter().flat_map(|m| m.bytes()).collect();
             }
             Step::Raw { hex, read_ms } => {
                 rec.op = "raw".into();
@@ -385,7 +385,7 @@ pub async fn run_client(spec: ClientSpec) {
                         }
                     }
                 }
-                rec.recv = conn.raw[start_raw..].to_vec();
+                rec.recv = rec.msgs.iter().flat_map(|m| m.bytes()).collect();
             }
             Step::Cancel { target, key } => {
                 rec.op = "cancel".into();
@@ -502,7 +502,7 @@ pub async fn run_client(spec: ClientSpec) {
                         open = false;
                     }
                 }
-                rec.recv = conn.raw[start_raw..].to_vec();
+                rec.recv = rec.msgs.iter().flat_map(|m| m.bytes()).collect();
             }
             Step::Send { msgs, rfq, cut, abort, txn } => {
                 rec.op = "send".into();
@@ -612,7 +612,7 @@ pub async fn run_client(spec: ClientSpec) {
                             open = false;
                         }
                     }
-                    rec.recv = conn.raw[start_raw..].to_vec();
+                    rec.recv = rec.msgs.iter().flat_map(|m| m.bytes()).collect();
                 }
             }
         }
